@@ -5,7 +5,7 @@ from ..common import Names, rat
 from . import c01
 
 PROP = "C05"
-LEAN_MODULE = "VK.Props.C05"
+LEAN_MODULE = "VK.Check.C05"
 THEOREMS = [
     "VK.C05_ballot_ok_iff",
     "VK.C05_accept",
@@ -13,6 +13,7 @@ THEOREMS = [
     "VK.C05_totals",
     "VK.C05_subclass_params",
     "VK.C04_elect_top",
+    "VK.kernel_rating_validator",
 ]
 RULE = ("cases = class in {GeneralRating, Rating, Limited, Cumulative, Approval, BlocPlurality} x score profile (1-6 "
         "candidates, candidates scored by nobody, rational scores and weights) x m x L x k x tiebreak; 45% of the "
